@@ -28,8 +28,13 @@ def generated_values(ctx, s, policies=("lo", "hi", "alt", "rnd")):
     return vals
 
 
-def value_cases(ctx, s, w, *, perturb=12, zoo=6, inject=4, gens=("lo", "hi", "rnd")):
+def value_cases(ctx, s, w, *, perturb=12, zoo=6, inject=4, gens=("lo", "hi", "rnd"), boundary=24):
     cases = [ValCase(s, w, "witness")]
+    try:
+        for v in boundary_values(s, w, boundary):
+            cases.append(ValCase(s, v, "boundary"))
+    except RecursionError:
+        pass
     vs = generated_values(ctx, s, gens)
     for v in vs:
         cases.append(ValCase(s, v, "generated"))
@@ -50,3 +55,132 @@ def value_cases(ctx, s, w, *, perturb=12, zoo=6, inject=4, gens=("lo", "hi", "rn
         except Exception:
             pass
     return cases
+
+
+# ---------------------------------------------------------------------------------------------
+# boundary values of every numeric / length bound, at every depth
+
+def _scalar_boundaries(s):
+    import math
+    from niltype import Nil
+    from d42.declaration.types import FloatSchema, IntSchema, StrSchema
+    out = []
+    p = s.props
+
+    def g(n):
+        v = p.get(n)
+        return None if v is Nil else v
+    if isinstance(s, IntSchema):
+        for b in (g("value"), g("min"), g("max")):
+            if b is not None:
+                out += [int(b) - 1, int(b), int(b) + 1]
+    elif isinstance(s, FloatSchema):
+        prec = g("precision")
+        for b in (g("value"), g("min"), g("max")):
+            if isinstance(b, float) and math.isfinite(b):
+                out += [b, math.nextafter(b, math.inf), math.nextafter(b, -math.inf), b * (1 + 5e-10), b * (1 - 5e-10),
+                        b * (1 + 2e-9), b * (1 - 2e-9), b + 1e-9, b - 1e-9]
+                if prec is not None:
+                    q = 10.0 ** (-prec)
+                    out += [b + 0.49 * q, b - 0.49 * q, b + 0.51 * q, b - 0.51 * q, b + q, b - q]
+    elif isinstance(s, StrSchema):
+        al = g("alphabet")
+        ch = (al[0] if al else "a") if al != "" else "a"
+        sub = g("substr") or ""
+        for b in (g("len"), g("min_len"), g("max_len")):
+            if b is not None:
+                for n in (b - 1, b, b + 1):
+                    if n >= 0:
+                        pad = max(0, n - len(sub))
+                        out.append(sub + ch * pad if len(sub) <= n else ch * n)
+    return out
+
+
+def boundary_values(s, w, limit=40):
+    """values equal to the witness except that one scalar position sits on / next to a declared bound"""
+    from niltype import Nil
+    from d42.declaration.types import (AnySchema, DictSchema, GenericTypeAliasSchema, ListSchema)
+    from . import custom
+    out = []
+
+    def rec(s, w, put):
+        if len(out) >= limit:
+            return
+        if isinstance(s, custom.FwdSchema):
+            return rec(s.props.inner, w, put)
+        if isinstance(s, GenericTypeAliasSchema):
+            return rec(s.props.type, w, put)
+        if isinstance(s, AnySchema):
+            ts = s.props.get("types")
+            if ts is not Nil:
+                for t in ts:
+                    rec(t, w, put)
+            return
+        if isinstance(s, DictSchema):
+            keys = s.props.get("keys")
+            if keys is Nil or not isinstance(w, dict):
+                return
+            for k, (sub, opt) in keys.items():
+                if k is Ellipsis or k not in w:
+                    continue
+                rec(sub, w[k], lambda nv, k=k: put({**w, k: nv}))
+            return
+        if isinstance(s, ListSchema):
+            if not isinstance(w, list):
+                return
+            t, els = s.props.get("type"), s.props.get("elements")
+            ln = [s.props.get(n) for n in ("len", "min_len", "max_len")]
+            for b in ln:
+                if b is not Nil and w:
+                    for n in (b - 1, b, b + 1):
+                        if n >= 0:
+                            put((w * (n // len(w) + 1))[:n])
+            if t is not Nil:
+                for i in range(min(len(w), 3)):
+                    rec(t, w[i], lambda nv, i=i: put(w[:i] + [nv] + w[i + 1:]))
+            elif els is not Nil:
+                core = [e for e in els if e is not Ellipsis]
+                lead = len(els) >= 1 and els[0] is Ellipsis
+                trail = len(els) >= 2 and els[-1] is Ellipsis
+                if not lead:
+                    for i, e in enumerate(core):
+                        if i < len(w):
+                            rec(e, w[i], lambda nv, i=i: put(w[:i] + [nv] + w[i + 1:]))
+                elif not trail:
+                    off = len(w) - len(core)
+                    for i, e in enumerate(core):
+                        if 0 <= off + i < len(w):
+                            rec(e, w[off + i], lambda nv, j=off + i: put(w[:j] + [nv] + w[j + 1:]))
+            return
+        for b in _scalar_boundaries(s):
+            put(b)
+
+    rec(s, w, out.append)
+    return out[:limit]
+
+
+def scalar_corpus():
+    """fixed (schema, witness) pairs with tight / coinciding bounds; run first by the validator-family checks"""
+    from d42 import schema
+    out = []
+    for v in (0, 5, -3):
+        out += [(schema.int(v), v), (schema.int(v).min(v), v), (schema.int(v).max(v), v), (schema.int(v).min(v).max(v), v),
+                (schema.int.min(v).max(v), v), (schema.int.min(v), v), (schema.int.max(v), v)]
+    for v in (2.0, 0.1, -1.5, 1e10):
+        out += [(schema.float(v), v), (schema.float(v).min(v), v), (schema.float(v).max(v), v),
+                (schema.float(v).min(v).max(v), v), (schema.float.min(v).max(v), v), (schema.float.min(v), v),
+                (schema.float.max(v), v), (schema.float(v).precision(1), v), (schema.float(v).precision(1).max(v), v),
+                (schema.float(v).precision(2).min(v), v), (schema.float.min(v).precision(3), v)]
+    for v in ("", "ab", "banana"):
+        n = len(v)
+        out += [(schema.str(v), v), (schema.str(v).len(n), v), (schema.str.len(n), v), (schema.str.len(n, ...), v),
+                (schema.str.len(..., n), v), (schema.str.len(n, n), v), (schema.str(v).len(n, ...), v),
+                (schema.str(v).len(..., n), v)]
+    out += [(schema.str.alphabet("ab").len(2), "ab"), (schema.str.contains("an").len(2, 6), "banana"),
+            (schema.str.alphabet("abn").contains("an"), "banana"), (schema.str.regex(r"^a+$").len if False else schema.str.regex(r"^a+$"), "aa")]
+    nested = []
+    for s, w in out[::3]:
+        nested += [(schema.dict({"k": s, "z": schema.none}), {"k": w, "z": None}), (schema.list([schema.none, s]), [None, w]),
+                   (schema.list(s).len(1, 2), [w]), (schema.any(schema.none, s), w),
+                   (schema.list([..., s, ...]), [None, w, None])]
+    return out + nested
